@@ -247,6 +247,8 @@ pub(crate) async fn run_command_loop(
               );
               
               // --- Capture Reconnect Flag ---
+              let reconnect_target = crate::socket::core::pipe_manager::reconnect_target_of(&core_arc, Some(&uri), expected_handle_id)
+                .unwrap_or_else(|| uri.clone());
               let should_reconnect = crate::socket::core::pipe_manager::cleanup_stopped_child_resources(
                 core_arc.clone(),
                 &socket_logic_strong,
@@ -284,12 +286,12 @@ pub(crate) async fn run_command_loop(
                 };
                 
                 let max = options.reconnect_ivl_max.unwrap_or(std::time::Duration::from_secs(60));
-                let recon_state = state.reconnect_states.entry(uri.clone()).or_default();
+                let recon_state = state.reconnect_states.entry(reconnect_target.clone()).or_default();
                 let delay = recon_state.on_connection_failure(base, max);
                 
                 tracing::info!(
                   core_handle = core_handle,
-                  uri = %uri,
+                  uri = %reconnect_target,
                   attempt = recon_state.current_attempts,
                   next_attempt_in = ?delay,
                   "Reaper: Zombie session cleaned. Scheduled for reconnect."
